@@ -1,9 +1,9 @@
 #!/bin/bash
-# usage: tools_sweep.sh <tier> <seed>...   runs every registered check for each seed, prints the verdict lines
+# usage: tools_sweep.sh <tier> <seed>...   runs every registered check (or those named in SWEEP_IDS) for each seed, prints the verdict lines
 TIER=$1; shift
 cd "$(dirname "$0")"
 for seed in "$@"; do
-  for id in C01 C02 C03 C04 C05 C06 C07 C08 C09 C10 C11 C12 C13 C14 C15 C16 C17 C18 C19 C20; do
+  for id in ${SWEEP_IDS:-C01 C02 C03 C04 C05 C06 C07 C08 C09 C10 C11 C12 C13 C14 C15 C16 C17 C18 C19 C20}; do
     out=$(VERIF_SEED=$seed timeout 7200 /venv/bin/python run.py $id --tier $TIER 2>&1)
     echo "$out" | tail -1
     echo "$out" | grep -E "^VIOLATION|^INCONCLUSIVE|^  kind=" | head -6 | cut -c1-600
